@@ -126,6 +126,19 @@ CHECKS = {
                      "written before the trap must equal what the generator recorded, for both code generators (and both must print "
                      "identical reports incl. columns).",
                 note="stack overflow / out-of-memory reports are covered by C13; columns only compared between generators"),
+    "C15": dict(level="exploration", engine="progspace", design="5/C15",
+                technique="enumeration of the owned nondeterminism space -- hash seeds (getrandom interposition) x working directory x output "
+                          "neighbours x ASLR x concurrency -- for every program x code generator x artefact kind on the real tool chain; "
+                          "byte comparison of all builds; bootstrap chains per seed and first-stage builder",
+                text="Every program (hand-written feature-rich programs, a program with five external packages passed in unsorted order, a "
+                     "manifest-driven `dora build` project with five path dependencies, a generator unit, a stride of the runnable corpus) "
+                     "is built as package, assembly and executable by both code generators once per hash seed (3 quick / 24 thorough; the "
+                     "seeds of every Rust process in the pipeline are set through an LD_PRELOAD getrandom shim that is verified effective) x "
+                     "environment variant (cwd /, short, deep; 60 neighbour files; ASLR off), 14 builds at a time: all members of a group "
+                     "must be byte-identical. The optimizing compiler is bootstrapped per seed with first stages linked against two "
+                     "collectors: stage2 == stage3 as executable and assembly, and stage2's assembly is the same across chains.",
+                note="seeds enumerate hash functions, not all iteration orders; release and debug-assertion tool chains are different "
+                     "compiler configurations (is_debug changes emitted self-checks) and are compared only with themselves; gcc/ld trusted"),
     "C16": dict(level="exploration", engine="seqmc", design="5/C16",
                 technique="bounded-exhaustive enumeration of texts x separator styles, oracle evaluated on the real parser's tree",
                 text="The same text space as C06 with all line-ending/separator styles and multi-byte lexemes, plus all "
